@@ -7,7 +7,14 @@
 **             prop=C03|C05|C09|C10|C12
 **             two=0|1   (second tree B: copy/assign/swap/del between A and B)
 **             mode=bfs|ladder|pairs   depth=N (0 = fixpoint)  memo=0|1
+**             alias=0|1 (adds set(t, k, v) where k is the key object the tree's own
+**                        iteration yields - the  foreach (k in t) set(t, k, v)  idiom)
 **             ladder: sizes=a,b,c  (key counts; keys=int|str)
+**
+** Alphabet (simplest first): set(k,v) for every key and value, rem(k) for every key (a
+** self-loop demanding KeyError when k is absent), resize(0), A=copy(A), assign into a new
+** and into a non-empty tree, A=new(Tree,K,V,bindings...), [alias], [B-side operations],
+** [C12 failing operations].  State = nitems + pre-order dump of shape, colours, keys, values.
 **
 ** White-box: includes the library's own Tree.c so that struct Tree and the node
 ** accessors are visible (exact state canonicalisation and the red-black audit).  The
